@@ -87,6 +87,14 @@ FIXED += [
      c06("program p\n deallocate (z=e23)\nend program p\n")),
 ]
 
+FIXED += [
+    ("C03", "grouping-differs", "bfcd198", "a parenthesised sub-expression repeated with different parenthesis depth gained parentheses: ((a+b)) * (a+b) parsed as ((a+b)) * ((a+b)) (string_replace_map placeholder collision)",
+     {"mode": "expr", "text": "((a + b)) * (a + b)", "expected": "(p[p[(a+b)]]*p[(a+b)])", "context": "expr"}),
+    ("C02", "token-mismatch", "bfcd198", "string_replace_map collisions: the string '(a+b)' next to the expression (a+b) gained parentheses; \"'a b'\" // 'a b' was rejected",
+     {"mode": "source", "std": "f2003", "text": "program p\n  x = '(a+b)' // (a+b)\n  y = \"'a b'\" // 'a b'\n  z = ((c)) + (c)\nend program p\n",
+      "expected": "PROGRAM p\nx = '(a+b)' // (a + b)\ny = \"'a b'\" // 'a b'\nz = ((c)) + (c)\nEND PROGRAM p"}),
+]
+
 OPEN = [
     ("C03", "defined-binary-op-with-dotted-right", "a defined binary operator with a dotted operator or logical literal to its right at the same parenthesis level is not parsed (Expr.match splits at the right-most .word. and gives up if that one is intrinsic)",
      {"mode": "expr", "text": "a .x. b .and. c", "expected": "(a.x.(b.and.c))", "context": "expr", "known": True}),
@@ -129,11 +137,9 @@ OPEN = [
     ("C08", "accepted:delete-paren@use", "USE m, ONLY: OPERATOR(==, OPERATOR(.dot.) with a missing ')' is accepted", c08(wrap("  use m, only: operator(==, operator(.dot.)"), "delete-paren@use")),
     ("C08", "accepted:rename-construct-name@end_do", "a labelled DO construct closed by 'label END DO other_name' is accepted (no name check for Block_Label_Do_Construct)", c08(wrap("  nm: do 10 i = 1, 2\n  10 end do nm_zz"), "rename-construct-name@end_do")),
     ("C08", "accepted:delete-opener@do", "a labelled DO closed by an unlabelled END DO (with the labelled statement following) is accepted", c08(wrap("  do 46 k = 1, 3\n    exit\n  end do\n  46 continue"), "delete-opener@do")),
-    ("C08", "accepted:delete-opener@subroutine", "same mechanism as delete-opener@function: statements directly after CONTAINS in a subprogram are accepted",
-     c08("subroutine f()\n  contains\n  integer :: a\n  a = 1\nend subroutine\n", "delete-opener@subroutine")),
     ("C08", "accepted:delete-paren@typedecl", "a type declaration with INTENT(...) followed by an attribute that lost its opening parenthesis (dimension3)) is accepted",
      c08(wrap("  integer, intent(in), dimension3) :: vf_a"), "delete-paren@typedecl")),
-    ("C08", "accepted:delete-opener@function", "specification and executable statements directly after CONTAINS in a subprogram are accepted", c08("function f()\n  contains\n  integer :: a\n  a = 1\nend function\n", "delete-opener@function")),
+    ("C08", "accepted:delete-opener@subprogram", "specification and executable statements directly after CONTAINS in a subprogram are accepted (seen when the opener of a contained subprogram is deleted)", c08("function f()\n  contains\n  integer :: a\n  a = 1\nend function\n", "delete-opener@subprogram")),
     ("C09", "tables-left-behind", "symbol tables of units matched before the failing unit of the same source stay behind (and a failing PROGRAM-less main program removes a 'fparser2:main_program' table made by an earlier parse): no transactional clean-up",
      {"mode": "leak", "text": "module a\n  integer :: sin\nend module a\nmodule b\n  x = = 1\nend module b\n"}),
     ("C09", "failed-parse-changes-later-result:tables", "same mechanism: tables left by the failed parse show up in (or are missing from) the table forest of later parses",
